@@ -202,7 +202,7 @@ def check_csv(ctx, n):
         if mo != exp: ctx.disagree("C12.csv_parse", case, repr(exp)[:300], repr(mo)[:300])
 
 # ------------------------------------------------------------------ (d) ARFF
-WORD = ["a", "b", "C", "1", "é", "日", "_", "-", "."]
+WORD = ["a", "b", "C", "1", "0", "é", "日", "_", "-", "."]
 SPECIAL = [" ", ",", "'", "\"", "\\", "%", "?", "{", "}"]
 def gen_token(rng, special=0.3):
     while True:
